@@ -14,7 +14,7 @@
           EHandlerReturn), each with the notifications recorded for it (WN). *)
 From Hy Require Import lib.Harness lib.Lin model.C15_Stats model.C15_Sites.
 From Hy Require gen.ParamsC01.
-From Hy Require Import model.C15_FromC01 model.C15_Pending.
+From Hy Require Import model.C15_FromC01 model.C15_Pending model.C15_Copy.
 From Coq Require Import ZArith String.
 Local Open Scope N_scope.
 
@@ -57,7 +57,12 @@ Inductive wobs :=
 | WAlive (slot : nat) (b : bool)   (* did a proxy attempt on that connection succeed? *)
 | WN (e : wevent) (ns : list (id * bool))
 | WReq (slot : nat) (k : N)        (* k proxy requests of that connection went into an outbound dial that does not return *)
-| WRel (slot : nat).               (* the pending dials of that connection failed: its request goroutines returned *)
+| WRel (slot : nat)                (* the pending dials of that connection failed: its request goroutines returned *)
+| WR (fn : string) (slot : nat) (tx rx : N) (acc : bool).
+                                   (* a LogTraffic(id, tx, rx) call recorded at the logger boundary, made from function fn of
+                                      core/server (read off the call stack) on behalf of that connection, and its answer.  fn must
+                                      be a report site of the model (site_of_caller) with these arguments - otherwise the run shows
+                                      a REPORT SITE THAT IS NOT IN THE MODEL and the check fails *)
                                    (* a server event that was enabled, and the LogOnlineState calls the
                                       logger boundary recorded for that connection at that point (auth
                                       handler steps and handleClient's continuation of a connection that
@@ -89,6 +94,23 @@ Fixpoint world_check (secret : string) (w : world) (l : list wobs) : bool :=
       let (w', r) := wstep secret w e in
       wresp_eqb r WUnit && notes_eqb (map snd (wnote w e)) ns && world_check secret w' t
   | WReq _ _ :: t | WRel _ :: t => world_check secret w t
+  | WR fn slot tx rx acc :: t =>
+      match site_of_caller fn tx rx with
+      | Some st =>
+          let (w', r) := wstep secret w (EReport slot st (tx + rx) false) in
+          (site_tx st (tx + rx) =? tx) && (site_rx st (tx + rx) =? rx) &&
+          wresp_eqb r (WBool acc) && world_check secret w' t
+      | None => false
+      end
+  end.
+
+(* the callers seen in a run that the model does not know *)
+Fixpoint unmodelled_callers (l : list wobs) : list string :=
+  match l with
+  | [] => []
+  | WR fn _ tx rx _ :: t =>
+      match site_of_caller fn tx rx with Some _ => unmodelled_callers t | None => fn :: unmodelled_callers t end
+  | _ :: t => unmodelled_callers t
   end.
 
 (* the same observations against model/C15_Pending.v (the code: handleClient does not wait): the requests went into
@@ -110,6 +132,13 @@ Fixpoint pworld_check (secret : string) (p : pworld) (l : list wobs) : bool :=
   | WRel slot :: t =>
       let (p', r) := pstep false secret p (PReqEnd slot (pend_at slot (pend p))) in
       wresp_eqb r WUnit && pworld_check secret p' t
+  | WR fn slot tx rx acc :: t =>
+      match site_of_caller fn tx rx with
+      | Some st =>
+          let (p', r) := pstep false secret p (PW (EReport slot st (tx + rx) false)) in
+          wresp_eqb r (WBool acc) && pworld_check secret p' t
+      | None => false
+      end
   end.
 
 Definition has_req (l : list wobs) : bool :=
@@ -160,13 +189,36 @@ Fixpoint c01_world_check (st : A.state) (tr : list A.ev) (ids : list id) (l : li
   | WE _ WNone :: t => c01_world_check st tr ids t
   | WE e _ :: t => go e t
   | WN e _ :: t => go e t
-  | WAlive _ _ :: t | WReq _ _ :: t | WRel _ :: t => c01_world_check st tr ids t
+  | WAlive _ _ :: t | WReq _ _ :: t | WRel _ :: t | WR _ _ _ _ _ :: t => c01_world_check st tr ids t
   end.
+
+(* ---------- the real copyBufferLog / copyTwoWayEx on scripted Reads (harness/go/c15/c15_copy_test.go, run inside
+   core/server): the result class and the observed sequence of log / Write calls must be those of copy_loop ---------- *)
+Definition cpres_eqb (a b : cpres) : bool :=
+  match a, b with
+  | CNil, CNil | CDisconnect, CDisconnect | CWriteErr, CWriteErr | CReadErr, CReadErr | CBlocked, CBlocked => true
+  | _, _ => false
+  end.
+
+Fixpoint cacts_eqb (a b : list cact) : bool :=
+  match a, b with
+  | [], [] => true
+  | ALog n x :: s, ALog m y :: t => (n =? m) && Bool.eqb x y && cacts_eqb s t
+  | AWrite n x :: s, AWrite m y :: t => (n =? m) && Bool.eqb x y && cacts_eqb s t
+  | _, _ => false
+  end.
+
+Definition copy_check (l : list rdstep) (res : cpres) (acts : list cact) (closed : bool) : bool :=
+  let (r, tr) := copy_loop l in
+  cpres_eqb r res && cacts_eqb tr acts &&
+  (* what handleTCPRequest would do with that result (two-way runs: the other direction is blocked) *)
+  Bool.eqb (match tcp_relay_action l false with CloseConn => true | Forward => false end) closed.
 
 Inductive case :=
 | CSeq (secret : string) (l : list (call * cres))
 | CLin (secret : string) (h : list (event call cres))
-| CWorld (secret : string) (l : list wobs).
+| CWorld (secret : string) (l : list wobs)
+| CCopy (l : list rdstep) (res : cpres) (acts : list cact) (closed : bool).
 
 Fixpoint seq_check (secret : string) (s : state) (l : list (call * cres)) : bool :=
   match l with
@@ -182,6 +234,7 @@ Definition check (c : case) : bool :=
   | CLin secret h => lin_check (c15_spec secret) h
   | CWorld secret l => world_check secret init_world l && c01_world_check A.init [] [] l &&
                        (if has_req l then pworld_check secret init_pworld l else true)
+  | CCopy l res acts closed => copy_check l res acts closed
   end.
 
 Definition mismatches (l : list case) : list nat := mism_from check 0 l.
